@@ -84,7 +84,7 @@ class Value(object):
         self.value = value
 
     def __repr__(self):
-        return "<Value: %r>" % self.value
+        return "<Value: %r>" % (self.value,)
 
 
 @asynq()
